@@ -33,6 +33,7 @@ type HarnessSpec struct {
 	Thorough TierSpec `json:"thorough"`
 	What     string   `json:"what"`
 	NoReplay bool     `json:"no_replay"` // witnesses cannot be replayed natively (engine-only observers)
+	Race     bool     `json:"race"`      // native replays run under the race detector; a reported data race reproduces a violation
 }
 
 type CheckSpec struct {
@@ -135,6 +136,7 @@ func writeNativeOverlay(repo, hdir, tmp string) (string, error) {
 	files, _ := filepath.Glob(filepath.Join(dir, "*.json"))
 	sort.Strings(files)
 	for _, f := range files {
+		fmt.Printf("ZZVERIF-BEGIN\t%s\n", filepath.Base(f))
 		name, verdict := V.RunFile(f, zzHarnesses)
 		if name == "" {
 			continue
@@ -166,18 +168,35 @@ type modelFile struct {
 }
 
 // nativeReplay runs all model files of dir through the harnesses of one package.
-func nativeReplay(repo, ovPath, pkgRel, dir string) (map[string][3]string, string, error) {
-	cmd := exec.Command("go", "test", "-tags", "verif", "-vet=off", "-count=1", "-overlay", ovPath, "-run", "^TestZZReplay$", "-v", "-timeout", "20m", "./"+pkgRel)
+func nativeReplay(repo, ovPath, pkgRel, dir string, race bool) (map[string][3]string, string, error) {
+	args := []string{"test", "-tags", "verif", "-vet=off", "-count=1", "-overlay", ovPath, "-run", "^TestZZReplay$", "-v", "-timeout", "20m"}
+	if race {
+		args = append(args, "-race")
+	}
+	cmd := exec.Command("go", append(args, "./"+pkgRel)...)
 	cmd.Dir = repo
 	cmd.Env = append(os.Environ(), "GOFLAGS=-mod=mod", "GOPROXY=off", "GOSUMDB=off", "GOTOOLCHAIN=local", "ZZVERIF_MODELS="+dir)
 	out, err := cmd.CombinedOutput()
 	res := map[string][3]string{}
+	cur, raced := "", map[string]bool{}
 	for _, line := range strings.Split(string(out), "\n") {
+		if strings.HasPrefix(line, "ZZVERIF-BEGIN\t") {
+			cur = strings.TrimPrefix(line, "ZZVERIF-BEGIN\t")
+		}
+		if strings.Contains(line, "WARNING: DATA RACE") && cur != "" {
+			raced[cur] = true
+		}
 		if strings.HasPrefix(line, "ZZVERIF-VERDICT\t") {
 			f := strings.SplitN(line, "\t", 5)
 			if len(f) == 5 {
-				res[f[1]] = [3]string{f[2], f[3], f[4]}
+				v := f[3]
+				if raced[f[1]] {
+					// the race detector reported a data race while this model ran
+					v = "reproduced: DATA RACE reported by the race detector (" + v + ")"
+				}
+				res[f[1]] = [3]string{f[2], v, f[4]}
 			}
+			cur = ""
 		}
 	}
 	if len(res) == 0 && err != nil {
@@ -302,7 +321,7 @@ func runCheck(prop, tier string, repo, hdir string, jobs int, seed int64) int {
 			}
 		}
 		if len(vfiles)+len(wfiles) > 0 {
-			verdicts, out, err := nativeReplay(repo, ovPath, pkgRelPath(hs.Pkg), mdir)
+			verdicts, out, err := nativeReplay(repo, ovPath, pkgRelPath(hs.Pkg), mdir, hs.Race)
 			if err != nil {
 				engineErrs = append(engineErrs, fmt.Sprintf("%s: native replay failed: %v\n%s", hs.Fn, err, tail(out, 30)))
 			}
@@ -312,7 +331,7 @@ func runCheck(prop, tier string, repo, hdir string, jobs int, seed int64) int {
 				if ok {
 					r.Verdict = vd[1]
 				}
-				same := strings.HasPrefix(r.Verdict, "reproduced: "+v.Msg)
+				same := strings.HasPrefix(r.Verdict, "reproduced: "+v.Msg) || (hs.Race && strings.HasPrefix(r.Verdict, "reproduced: DATA RACE"))
 				if v.Kind == "panic" {
 					same = strings.HasPrefix(r.Verdict, "reproduced: uncaught panic")
 				}
